@@ -12,6 +12,7 @@ mod c13;
 mod c10;
 mod c11;
 mod c03;
+mod alpha;
 
 fn main() {
     let args: Vec<String> = std::env::args().collect();
@@ -31,6 +32,7 @@ fn main() {
         "c10" => c10::run(tier, seed, out, extra),
         "c11" => c11::run(tier, seed, out, extra),
         "c03" => c03::run(tier, seed, out, extra),
+        "alpha" => alpha::run(tier, seed, out, extra),
         other => {
             eprintln!("unknown check {other}");
             std::process::exit(2);
